@@ -576,7 +576,7 @@ def corpus_cases():
                                              [_S(20000, 0, 4), _S(0, 0, 4), _S(0, 0, 4)]]}]}
     gen2 = {**gen, "seed": 5, "nolabel": False, "notitle": False,
             "tables": [{**gen["tables"][0], "repeat": 1}, {**gen["tables"][0], "number": 2, "repeat": 2}]}
-    # NOLABEL alone: title lines stay, no header line (known: first record still lost on this path)
+    # NOLABEL alone: title lines stay, no header line (first record was lost on this path before f017b8d)
     gen3 = {**gen, "seed": 6, "nolabel": True, "notitle": False,
             "tables": [{**gen["tables"][0]}, {**gen["tables"][0], "number": 2}]}
     return [ext, ext2, ext3, gen, gen2, gen3]
